@@ -10,6 +10,7 @@
 #include <glm/gtx/exterior_product.hpp>
 #include <glm/gtx/mixed_product.hpp>
 #include <glm/gtx/closest_point.hpp>
+#include <glm/gtx/vector_angle.hpp>
 using namespace vt;
 #ifndef C12_T
 #define C12_T f32
@@ -41,9 +42,14 @@ ENTRY(l1Norm_3_f32) { auto a = in_vec<3, TY>(c, 0); c.out(glm::l1Norm(a)); }
 ENTRY(l2Norm_3_f32) { auto a = in_vec<3, TY>(c, 0); c.out(glm::l2Norm(a)); }
 ENTRY(l1Norm2_3_f32) { auto a = in_vec<3, TY>(c, 0); auto b = in_vec<3, TY>(c, 1); c.out(glm::l1Norm(a, b)); }
 ENTRY(l2Norm2_3_f32) { auto a = in_vec<3, TY>(c, 0); auto b = in_vec<3, TY>(c, 1); c.out(glm::l2Norm(a, b)); }
+// gtx/vector_angle: arguments are unit vectors (documented precondition)
+V2(e_angle, c.out(glm::angle(a, b)))
+ENTRY(s_angle) { c.out(glm::angle(c.template in<TY>(0, 0), c.template in<TY>(1, 0))); }
+ENTRY(orientedAngle_2_f32) { auto a = in_vec<2, TY>(c, 0); auto b = in_vec<2, TY>(c, 1); c.out(glm::orientedAngle(a, b)); }
+ENTRY(orientedAngle_3_f32) { auto a = in_vec<3, TY>(c, 0); auto b = in_vec<3, TY>(c, 1); auto r = in_vec<3, TY>(c, 2); c.out(glm::orientedAngle(a, b, r)); }
 #define ADDL(NAME, FN, L) registry().push_back(Entry{nm(NAME, L), &FN<TraceFam, L>, &FN<ConcFam, L>, 3})
 template<int L> static void reg() { ADDL("dot", e_dot, L); ADDL("length", e_length, L); ADDL("distance", e_distance, L); ADDL("normalize", e_normalize, L); ADDL("reflect", e_reflect, L);
 	ADDL("refract", e_refract, L); ADDL("faceforward", e_faceforward, L); ADDL("length2", e_length2, L); ADDL("distance2", e_distance2, L); }
-template<int L> static void reg23() { ADDL("proj", e_proj, L); ADDL("perp", e_perp, L); }
+template<int L> static void reg23() { ADDL("proj", e_proj, L); ADDL("perp", e_perp, L); ADDL("angle", e_angle, L); }
 static int init = (reg<1>(), reg<2>(), reg<3>(), reg<4>(), reg23<2>(), reg23<3>(), reg23<4>(), 0);
 VT_MAIN("C12")
